@@ -24,6 +24,7 @@ import (
 type workerReq struct {
 	Op     string          `json:"op"` // gen | exec
 	Seed   uint64          `json:"seed,omitempty"`
+	Idx    int             `json:"idx"`
 	Tier   string          `json:"tier,omitempty"`
 	WantSc bool            `json:"want_sc,omitempty"`
 	Sc     json.RawMessage `json:"sc,omitempty"`
@@ -55,7 +56,7 @@ func WorkerMain(id string) {
 			res := &RunResult{Seed: req.Seed}
 			switch req.Op {
 			case "gen":
-				sc = MustJSON(c.Gen(req.Seed, req.Tier))
+				sc = genScenario(c, req.Idx, req.Seed, req.Tier)
 			case "exec":
 				sc = req.Sc
 			default:
@@ -68,6 +69,9 @@ func WorkerMain(id string) {
 			rc.collect(res)
 			if req.WantSc || len(res.Violations) > 0 {
 				res.Scenario = sc
+				if res.AltScenario != nil && len(res.Violations) > 0 {
+					res.Scenario = res.AltScenario
+				}
 			}
 			b, e := json.Marshal(res)
 			if e != nil {
@@ -78,11 +82,21 @@ func WorkerMain(id string) {
 			out.Write(b)
 			out.WriteString("\n")
 			out.Flush()
+			if res.Poisoned {
+				os.Exit(0)
+			}
 		}
 		if err != nil {
 			return
 		}
 	}
+}
+
+func genScenario(c *Check, idx int, seed uint64, tier string) json.RawMessage {
+	if c.GenIdx != nil {
+		return MustJSON(c.GenIdx(idx, seed, tier))
+	}
+	return MustJSON(c.Gen(seed, tier))
 }
 
 // memoryGuard turns a runaway allocation into a fast, classifiable death instead of eating the box.
@@ -462,9 +476,9 @@ func Supervise(c *Check, o Opts) int {
 	if o.Workers <= 0 {
 		o.Workers = 16
 	}
-	watchdog := 90 * time.Second
+	watchdog := 40 * time.Second
 	if o.Tier == "thorough" {
-		watchdog = 240 * time.Second
+		watchdog = 90 * time.Second
 	}
 
 	type job struct {
@@ -494,7 +508,7 @@ func Supervise(c *Check, o Opts) int {
 			}
 			defer func() { p.kill() }()
 			for j := range jobs {
-				req := workerReq{Op: "gen", Seed: j.seed, Tier: o.Tier, WantSc: j.idx < 3}
+				req := workerReq{Op: "gen", Seed: j.seed, Idx: j.idx, Tier: o.Tier, WantSc: j.idx < 3 || j.idx == 20}
 				oc := p.call(req, watchdog)
 				if oc.died {
 					// confirm alone, in a fresh process
@@ -503,7 +517,7 @@ func Supervise(c *Check, o Opts) int {
 						oc2 := p2.call(req, 3*watchdog)
 						if oc2.died {
 							sig, msg := fatalClass(oc2.stderr, oc2.timeout)
-							sc := MustJSON(c.Gen(j.seed, o.Tier))
+							sc := genScenario(c, j.idx, j.seed, o.Tier)
 							mu.Lock()
 							addFound(found, Violation{Sig: sig, Msg: msg}, j.seed, sc)
 							agg.runs++
@@ -535,6 +549,18 @@ func Supervise(c *Check, o Opts) int {
 					addFound(found, v, j.seed, oc.res.Scenario)
 				}
 				mu.Unlock()
+				if oc.res.Poisoned {
+					p.kill()
+					p, err = spawn(c, raceDir)
+					if err != nil {
+						mu.Lock()
+						infra = append(infra, "respawn: "+err.Error())
+						mu.Unlock()
+						for range jobs {
+						}
+						return
+					}
+				}
 			}
 		}()
 	}
@@ -564,7 +590,7 @@ func Supervise(c *Check, o Opts) int {
 				if !ok {
 					continue
 				}
-				oc := p.call(workerReq{Op: "gen", Seed: seed, Tier: o.Tier}, 3*watchdog)
+				oc := p.call(workerReq{Op: "gen", Seed: seed, Idx: i, Tier: o.Tier}, 3*watchdog)
 				if oc.died {
 					p, _ = spawn(c, raceDir)
 					continue
@@ -607,11 +633,14 @@ func Supervise(c *Check, o Opts) int {
 		unknown = append(unknown, fv)
 	}
 	os.MkdirAll(filepath.Join(o.VerifDir, "replays"), 0o755)
+	minimised := 0
 	for _, fv := range unknown {
 		sc := fv.Scenario
 		steps := 0
-		if !o.NoMin && c.Shrink != nil && sc != nil {
-			sc, steps = minimise(c, raceDir, sc, fv.Sig, 45*time.Second, watchdog)
+		if !o.NoMin && c.Shrink != nil && sc != nil && minimised < 4 {
+			// minimise the first few signatures only: a broken tree can produce dozens
+			minimised++
+			sc, steps = minimise(c, raceDir, sc, fv.Sig, 40*time.Second, watchdog)
 		}
 		path := filepath.Join(o.VerifDir, "replays", fmt.Sprintf("%s-%d.json", c.ID, fv.Seed))
 		rf := ReplayFile{Property: c.ID, Sig: fv.Sig, Msg: fv.Msg, Seed: fv.Seed, Tier: o.Tier, Scenario: sc, ShrinkSteps: steps}
@@ -690,7 +719,7 @@ func (a *aggregate) add(r *RunResult, idx int) {
 	if len(a.digests) < 4096 {
 		a.digests[r.Seed] = r.Digest
 	}
-	if idx < 3 {
+	if idx < 3 || idx == 20 {
 		if r.Sample != nil {
 			a.samples = append(a.samples, r.Sample)
 		} else if r.Scenario != nil {
@@ -782,6 +811,10 @@ func minimise(c *Check, raceDir string, sc json.RawMessage, sig string, budget, 
 			s, _ := fatalClass(oc.stderr, oc.timeout)
 			p = nil
 			return s == sig
+		}
+		if oc.res.Poisoned {
+			p.kill()
+			p = nil
 		}
 		for _, v := range oc.res.Violations {
 			if v.Sig == sig {
